@@ -5,7 +5,9 @@
 use core::marker::PhantomData;
 use core::fmt::Debug;
 
+#[derive(Debug)]
 pub struct BoxedErr { pub code: u64 }
+#[derive(Debug)]
 pub enum NutsError { LogpFailure(BoxedErr), SerializeFailure(), BadInitGrad(BoxedErr) }
 pub struct DivergenceInfo { pub code: u64 }
 
